@@ -83,7 +83,8 @@ fn main() {
   rt::install_panic_hook();
   let out_path = args.get("out").cloned().unwrap_or_else(|| "/dev/null".to_string());
   let timeout_s: u64 = args.get("timeout").and_then(|s| s.parse().ok()).unwrap_or(3000);
-  let inline = args.contains_key("inline");
+  // no fork under Miri: the monitor runs in this process
+  let inline = args.contains_key("inline") || cfg!(miri);
   let keep_stdout = args.contains_key("keep-stdout");
   let stderr_path = format!("{}.stderr", out_path);
   let started = std::time::Instant::now();
